@@ -230,12 +230,19 @@ impl Inst {
         while let Some(i) = rest.find("Instant(") {
             out.push_str(&rest[..i]);
             let tail = &rest[i + 8..];
-            let j = tail.find(')').unwrap();
-            // the mock prints nanoseconds
-            let t: u128 = tail[..j].parse().unwrap();
-            let age = self.now.saturating_sub((t / 1_000_000) as u64).min(cap);
-            out.push_str(&format!("Age({age})"));
-            rest = &tail[j + 1..];
+            // the mock prints nanoseconds; anything that does not look like that is kept verbatim
+            let parsed = tail.find(')').and_then(|j| tail[..j].parse::<u128>().ok().map(|t| (j, t)));
+            match parsed {
+                Some((j, t)) => {
+                    let age = self.now.saturating_sub((t / 1_000_000) as u64).min(cap);
+                    out.push_str(&format!("Age({age})"));
+                    rest = &tail[j + 1..];
+                }
+                None => {
+                    out.push_str("Instant(");
+                    rest = tail;
+                }
+            }
         }
         out.push_str(rest);
         out
